@@ -121,8 +121,10 @@ CLAIMS.update({
     "C04": ("proof", "PARTIAL proof. Coq theorems: every position of everything add_content stores -- every range of every tree node, every syntax "
             "diagnostic -- is the lookup's answer at a character boundary inside the text (C04_stored_positions: all texts, any tables); "
             "every diagnostic validation adds to a stored tree sits, with its related ranges, on the range of a node of that tree "
-            "(C04_validation_on_nodes); Position::new is sound (C04_position, C04_range_partial, C04_boundary). NOT proved: start <= end, "
-            "exactness of name ranges, nesting. Those are decided by text-based oracles on "
+            "(C04_validation_on_nodes); every range of every stored tree node and syntax diagnostic has start <= end (C04_ranges_ordered: "
+            "the stack's symbols occupy consecutive stretches of the text and an abstract run of every production's action, computed by Coq "
+            "over the regenerated action table, shows positions are passed on in text order); Position::new is sound (C04_position, "
+            "C04_range_partial, C04_boundary). NOT proved: exactness of name ranges, nesting. Those are decided by text-based oracles on "
             "the implementation's output (name range covers exactly the name as written, full ranges first-to-last token, children inside "
             "parents, siblings increasing, syntax diagnostics on exactly the offending token, validation diagnostics on a node's range, the "
             "lookup table checked against the line/column specification) and by exact correspondence with the parser model.",
